@@ -7,7 +7,7 @@ LEVEL = "exploration"
 TECHNIQUE = "post-condition / relation monitors on the real converters (inverse pairs, composites, scaling laws, axis-vs-loop)"
 LEVEL_TEXT = ("Each inverse pair, composite and scaling law is evaluated on the real functions over log-uniform inputs spanning 12 decades, "
               "every band, scalar / 0-d / list / float32 / n-d inputs, every integration axis of rank 1-4 profile stacks, always with "
-              "non-default wavelengths; identities must hold to pow() rounding. Exploration over a continuous domain.")
+              "non-default wavelengths; identities must hold to pow() rounding. Wavelengths range from 0.1 nm to kilometres, with deterministic visits on both sides of 1 mm, 1 m and 1 km. Exploration over a continuous domain.")
 LEVEL_NOTE = "Trusted: NumPy pow/log10. Published-constant clauses (0.314) are judged to 0.5 %."
 RULE = "case = (clause, argument class, values); non-trivial always (inputs are positive reals); distinct by clause and drawn values"
 ASSUMPTIONS = ["positive inputs", "alternating +-s slope sequences with an even number of frames have sample variance exactly s^2"]
